@@ -196,7 +196,9 @@ func runHistory(t *rapid.T, o historyOpts, st *propStats) {
 		labels = append(labels, "signer-"+k)
 	}
 	st.Case(nontrivial, fmt.Sprintf("%+v|%v", hist, p.MultihashAlgorithms), labels...)
-	st.Sample("history", 3, func() interface{} { return map[string]interface{}{"steps": hist, "multihash": p.MultihashAlgorithms, "timeDelta": p.MaxOperationTimeDelta} })
+	st.Sample("history", 3, func() interface{} {
+		return map[string]interface{}{"steps": hist, "multihash": p.MultihashAlgorithms, "timeDelta": p.MaxOperationTimeDelta}
+	})
 }
 
 func TestC01_Histories(t *testing.T) {
